@@ -134,6 +134,9 @@ const SHPIX: u8 = 0x38;
 const SVTCA_X: u8 = 0x01;
 const MUL: u8 = 0x63;
 const USER_OP: u8 = 0xA2;
+const MD_ORIG: u8 = 0x4A;
+const MD_CUR: u8 = 0x49;
+const ADD: u8 = 0x60;
 
 pub fn fonts() -> Vec<(String, Vec<u8>)> {
     // prep shared by both: ppem-dependent storage and cvt, a twilight point
@@ -155,8 +158,10 @@ pub fn fonts() -> Vec<(String, Vec<u8>)> {
         PUSHB1, 0, FDEF, SVTCA_X, PUSHB2, 2, 48, SHPIX, PUSHB3, 1, 2, 3, POP, POP, POP, ENDF, //
         PUSHB1, 1, FDEF, PUSHB1, 2, RS, POP, ENDF,
     ];
-    let progs_a = vec![vec![USER_OP], vec![PUSHB1, 0, CALL, USER_OP], vec![PUSHB2, 4, 9, WS, PUSHB2, 0, 128, WCVTP, USER_OP]];
-    let progs_b = vec![vec![USER_OP], vec![PUSHB1, 0, CALL], vec![PUSHB1, 1, CALL, PUSHB2, 4, 9, WS, USER_OP]];
+    // reads the twilight zone's original and current positions (set up by prep) and shifts point 0 by their sum
+    let twilight_reader = vec![SVTCA_X, PUSHB1, 0, PUSHB1, 0, SZPS, PUSHB2, 1, 0, MD_ORIG, PUSHB2, 1, 0, MD_CUR, ADD, PUSHB1, 1, SZPS, SHPIX];
+    let progs_a = vec![vec![USER_OP], vec![PUSHB1, 0, CALL, USER_OP], vec![PUSHB2, 4, 9, WS, PUSHB2, 0, 128, WCVTP, USER_OP], twilight_reader.clone()];
+    let progs_b = vec![vec![USER_OP], vec![PUSHB1, 0, CALL], vec![PUSHB1, 1, CALL, PUSHB2, 4, 9, WS, USER_OP], twilight_reader];
     let a = build(&Spec { fpgm: fpgm_a, prep: prep.clone(), glyph_programs: progs_a, cvt: vec![120, 0, 33, -7], max_storage: 6, max_twilight: 4, max_fdefs: 2, max_idefs: 1 });
     let b = build(&Spec { fpgm: fpgm_b, prep, glyph_programs: progs_b, cvt: vec![90, 0, 12], max_storage: 8, max_twilight: 2, max_fdefs: 2, max_idefs: 1 });
     vec![("synth-idef-a.ttf".to_string(), a), ("synth-idef-b.ttf".to_string(), b)]
